@@ -27,13 +27,13 @@ func MarshalBinary[T any](t TestingT, cases []CaseBinary[T]) {
 	t.Helper()
 
 	for i, c := range cases {
+		if !isForMarshal(c.Constraint) {
+			continue
+		}
+
 		if _, ok := any(c.Value).(encoding.BinaryMarshaler); !ok {
 			assert.FailNowf(t, "unable to test MarshalBinary", "type %T must implements encoding.BinaryMarshaler", c.Value)
 			return
-		}
-
-		if !isForMarshal(c.Constraint) {
-			continue
 		}
 
 		failInfo := fmt.Sprintf("case %d failed", i)
@@ -66,13 +66,13 @@ func UnmarshalBinary[T any](t TestingT, cases []CaseBinary[T], helper TypeHelper
 
 	var f func(*T) encoding.BinaryUnmarshaler
 	for i, c := range cases {
+		if !isForUnmarshal(c.Constraint) {
+			continue
+		}
+
 		if f = castToFunc[T, encoding.BinaryUnmarshaler](c.Value); f == nil {
 			assert.FailNowf(t, "unable to test UnmarshalBinary", "type %T must implements encoding.BinaryUnmarshaler", c.Value)
 			return
-		}
-
-		if !isForUnmarshal(c.Constraint) {
-			continue
 		}
 
 		failInfo := fmt.Sprintf("case %d failed", i)
